@@ -30,3 +30,6 @@ mod wprim;
 mod uctx;
 #[cfg(kani)]
 mod ehhdr;
+/// K-LINEGEN: `include!`s src/gen/linegen_items.rs, regenerated from /repo by `python3 kani/gen_linegen.py` (gitignored)
+#[cfg(kani)]
+mod linegen;
